@@ -4,6 +4,7 @@ import re
 
 from ..core import AnalysisError
 from .shared_py import inn
+from . import shared_py as P
 from ..pyfront import unparse, norm_key
 from .. import excflow
 
@@ -256,8 +257,12 @@ def callbacks(ctx, L):
             'never silently accepted', s)
     p = pp.func('Parser.p_error')
     s = ws(unparse(p.node))
-    L.check(s.rstrip().endswith('self._parser_error(message, line, pos)') and inn("message = 'unexpected end of input'", s) and
-            inn("message = \"syntax error at '{}'\".format(t.value)", s), 'C13a.error-callbacks', 'prophy.Parser.p_error', p.site(),
+    L.check(P.body_is(p, """
+        if t:
+            self._parser_error("syntax error at '{}'".format(t.value), t.lexer.lineno, t.lexpos)
+        else:
+            self._parser_error("unexpected end of input", self.lexer.lineno, len(self.lexer.lexdata) - 1)
+        """), 'C13a.error-callbacks', 'prophy.Parser.p_error', p.site(),
             'syntax errors (token or end of input) must be recorded', s)
     pe = pp.func('Parser._parser_error')
     L.check('self.errors.append((' in ws(unparse(pe.node)), 'C13a.error-callbacks', 'prophy.Parser._parser_error', pe.site(),
